@@ -769,7 +769,7 @@ Theorem move_before_loop_partial p :
   mbl_safe (fuel_of p) p = true -> equiv p (move_before_loop_model p).
 Proof. apply mbl_sound. Qed.
 
-(* refutations: a loop that runs zero times; a variable assigned again later in the body *)
+(* refutation: a loop that runs zero times *)
 Definition mbl_witness_zero : list stmt :=
   [SLoop (HWhile (Unknown 1 [])) [SAssign 0 (RVal (VObj true 0))] []; SEv 3 [0]].
 Theorem move_before_loop_refuted : exists p, ~ obs_equiv p (move_before_loop_model p).
@@ -778,16 +778,28 @@ Proof.
   refute_with (fun _ : nat => VBool false) st0 mbl_witness_zero (move_before_loop_model mbl_witness_zero).
 Qed.
 
+(* before repair d47dff7 the rule also hoisted out of this loop, which certainly runs: the variable is read
+   and assigned again later in the body.  Pinned: the output of the old rule is not equivalent; the repaired
+   rule leaves the program alone. *)
 Definition mbl_witness_reassigned : list stmt :=
   [SLoop (HFor (IKnown 2)) [SAssign 0 (RVal (VObj true 0)); SEv 1 [0]; SAssign 0 (RVal (VObj true 1))] []].
-Theorem move_before_loop_refuted_reassigned :
-  exists p h b e, p = [SLoop h b e] /\ runs_once h = true /\ ~ obs_equiv p (move_before_loop_model p).
+Definition mbl_witness_reassigned_old_output : list stmt :=
+  [SAssign 0 (RVal (VObj true 0)); SLoop (HFor (IKnown 2)) [SEv 1 [0]; SAssign 0 (RVal (VObj true 1))] []].
+Theorem old_move_before_loop_refuted_reassigned :
+  ~ obs_equiv mbl_witness_reassigned mbl_witness_reassigned_old_output
+  /\ move_before_loop_model mbl_witness_reassigned = mbl_witness_reassigned.
 Proof.
-  exists mbl_witness_reassigned, (HFor (IKnown 2)),
-         [SAssign 0 (RVal (VObj true 0)); SEv 1 [0]; SAssign 0 (RVal (VObj true 1))], [].
-  split; [reflexivity|]. split; [reflexivity|].
-  refute_with (fun _ : nat => VBool false) st0 mbl_witness_reassigned (move_before_loop_model mbl_witness_reassigned).
+  split; [|reflexivity].
+  refute_with (fun _ : nat => VBool false) st0 mbl_witness_reassigned mbl_witness_reassigned_old_output.
 Qed.
+
+(* an assignment that is overwritten before it is read is still moved (and the guard of the partial theorem
+   does not cover it: modelled, not verified) *)
+Example move_before_loop_overwritten_still_hoisted :
+  move_before_loop_model
+    [SLoop (HFor (IKnown 2)) [SAssign 0 (RVal (VObj true 0)); SAssign 0 (RVal (VObj true 1)); SEv 1 [0]] []]
+  = [SAssign 0 (RVal (VObj true 0)); SAssign 0 (RVal (VObj true 1)); SLoop (HFor (IKnown 2)) [SEv 1 [0]] []].
+Proof. reflexivity. Qed.
 
 Example move_before_loop_partial_nontrivial :
   let p := [SLoop (HFor (IKnown 3)) [SEv 1 [1]; SAssign 0 (RVal (VObj true 0)); SEv 2 [0]] []; SEv 3 [0]] in
